@@ -150,3 +150,10 @@ Definition m_ext_full := ext_full.
 (* C18 *)
 From FQE Require Import Cert.
 Definition m_check_cert := check_cert.
+
+(* C06: gather_nbody_spin_sectors as coded (Sort.v) *)
+From FQE Require Import Sort.
+Definition m_gather (ops : list (nat * bool)) : bool * list (nat * bool) * list (nat * bool) :=
+  match gather (map (fun x => mkop (fst x) (snd x)) ops) with
+  | (sg, ab, bb) => (sg, map (fun o => (opos o, odag o)) ab, map (fun o => (opos o, odag o)) bb)
+  end.
